@@ -220,7 +220,7 @@ def main(tier, replay=None):
             run_case(dict(source={"kind": "shipped", "name": name}, modes=modes,
                           ops=[("f", i, "lo", i) for i in range(10)] + [("p", i, "lo", i) for i in range(6)]), rep)
     nshards = 16 if tier == "thorough" else 8
-    total = 16 * 500 if tier == "thorough" else 480
+    total = 16 * 2000 if tier == "thorough" else 480
     for p in engine.run_shards(_shard, nshards, common.verif_seed(), tier=tier, n_cases=total // nshards):
         rep.merge(p)
     runner = _Runner(Reporter(PID, tier, RULE))
